@@ -58,6 +58,11 @@ class OpenerMonitor(Monitor):
             return
         if s.operations and type(s.operations[-1]).__name__ in BETTING:
             return
+        if s.street_index and s.can_post_bring_in():
+            ctx.violate(f'a bring-in is demanded on street {s.street_index}: '
+                        f'the forced bring-in belongs to the first betting '
+                        f'round only')
+            return
         exp = opener.first_actor(s)
         got = s.actor_index
         ctx.counters['openings_checked'] += 1
